@@ -580,8 +580,8 @@ class TableReport(ReportBase):
         if isinstance(value, datetime):
             # Use report's timeFormat, falling back to project's timeformat
             timeformat = self.a("timeFormat")
-            # Check if it's the default - if so, try project's timeformat
-            if timeformat == "%Y-%m-%d":
+            # Unless the report sets its own format, use the project's timeformat
+            if not self.report.provided("timeFormat"):
                 project_timeformat = self.project.attributes.get("timeformat")
                 if project_timeformat:
                     timeformat = project_timeformat
